@@ -168,7 +168,10 @@ def evaluator_cells(name):
             for oper in TF_OPS:
                 n = A.OPS[oper]
                 for kx, sx in kinds_x:
-                    for ky, sy in (kinds_y if n == 2 else [(None, None)]):
+                    # binary operators also with one and the same sentence on both sides (value v1 twice)
+                    for ky, sy in ((kinds_y + [('the same sentence', sx)]) if n == 2 else [(None, None)]):
+                        if ky == 'the same sentence' and v2 != V[0]:
+                            continue
                         key = ('eval', name, oper, kx, ky, v1, v2)
                         try:
                             if n == 1:
